@@ -10,10 +10,17 @@ import (
 	"verif/internal/harness"
 )
 
-// C19 part "latepath": one context, one module name, and every short history of import
-// attempts and search-path changes. A failed import leaves nothing behind: as soon as the
-// module can be found (a directory appended to or inserted into sys.path) the next import finds
-// it and runs its body once; once loaded it stays the loaded module whatever the path becomes.
+// C19 part "latepath": one context, a module name that several directories provide, a second
+// module whose name merely starts with the first one's, and every short history of import
+// attempts and search-path changes.
+//
+//   - a failed import (module not found, or its body raised) leaves nothing behind: as soon as
+//     the module can be found the next import finds it and runs its body once;
+//   - once loaded a module stays the loaded module whatever the path becomes;
+//   - a directory on the path that merely contains a plain directory of the module's name (no
+//     __init__.py) does not provide the module and does not hide a later directory that does;
+//   - the failure of one module does not disturb another loaded module, however alike the
+//     names are (c19late / c19late2).
 func c19LatePath(rc *core.RunCtx) {
 	rc.Part = "latepath"
 	root, err := os.MkdirTemp("", "c19e-")
@@ -22,17 +29,25 @@ func c19LatePath(rc *core.RunCtx) {
 	}
 	defer os.RemoveAll(root)
 	dirs := map[string]string{}
-	for _, d := range []string{"A", "B", "empty", "main"} {
+	for _, d := range []string{"A", "B", "F", "P", "empty", "main"} {
 		dirs[d] = filepath.Join(root, d)
 		os.MkdirAll(dirs[d], 0o755)
 	}
 	for _, d := range []string{"A", "B"} {
 		os.WriteFile(filepath.Join(dirs[d], "c19late.py"), []byte("import vh\nvh.log('body-"+d+"')\nNAME = '"+d+"'\n"), 0o644)
 	}
-	ops := []string{"import", "from", "appendA", "insertB", "pop"}
-	maxLen := 4
+	// the longer-named module lives in A only
+	os.WriteFile(filepath.Join(dirs["A"], "c19late2.py"), []byte("import vh\nvh.log('body-2')\ncount = 0\n"), 0o644)
+	// F: the module is found but its body raises after a side effect
+	os.WriteFile(filepath.Join(dirs["F"], "c19late.py"), []byte("import vh\nvh.log('body-F')\nNAME = 'F'\nraise ValueError('broken module')\n"), 0o644)
+	// P: a plain directory (not a package) named like the module
+	os.MkdirAll(filepath.Join(dirs["P"], "c19late"), 0o755)
+	os.WriteFile(filepath.Join(dirs["P"], "c19late", "other.py"), []byte("x = 1\n"), 0o644)
+
+	ops := []string{"import", "from", "import2", "appendA", "insertB", "insertF", "insertP", "pop"}
+	maxLen := 5
 	if !rc.Quick() {
-		maxLen = 5
+		maxLen = 6
 	}
 	var seq []string
 	var rec func()
@@ -40,7 +55,7 @@ func c19LatePath(rc *core.RunCtx) {
 		if rc.Expired() || rc.Done() {
 			return
 		}
-		if n := len(seq); n > 0 && (seq[n-1] == "import" || seq[n-1] == "from") && rc.Take() {
+		if n := len(seq); n > 0 && (seq[n-1] == "import" || seq[n-1] == "from" || seq[n-1] == "import2") && rc.Take() {
 			c19LateOne(rc, dirs, append([]string{}, seq...))
 		}
 		if len(seq) == maxLen {
@@ -60,35 +75,71 @@ func c19LateOne(rc *core.RunCtx, dirs map[string]string, seq []string) {
 	b.WriteString("import sys\nimport vh\n")
 	path := []string{"empty"}
 	loaded := ""
+	loaded2 := false
+	count2 := 0
 	var exp []string
 	for i, o := range seq {
 		switch o {
 		case "import", "from":
-			if o == "import" {
-				fmt.Fprintf(&b, "try:\n    import c19late\n    vh.log(('ok', %d, c19late.NAME))\nexcept ImportError:\n    vh.log(('ImportError', %d))\n", i, i)
-			} else {
-				fmt.Fprintf(&b, "try:\n    from c19late import NAME as n%d\n    vh.log(('ok', %d, n%d))\nexcept ImportError:\n    vh.log(('ImportError', %d))\n", i, i, i, i)
+			stmt := "import c19late\n    vh.log(('ok', %d, c19late.NAME))"
+			if o == "from" {
+				stmt = "from c19late import NAME as n\n    vh.log(('ok', %d, n))"
 			}
+			fmt.Fprintf(&b, "try:\n    "+stmt+"\nexcept ImportError:\n    vh.log(('ImportError', %d))\nexcept ValueError:\n    vh.log(('ValueError', %d))\n", i, i, i)
 			if loaded == "" {
+				provider := ""
+				plainOnly := false
 				for _, d := range path {
-					if d == "A" || d == "B" {
-						loaded = d
-						exp = append(exp, "'body-"+d+"'")
+					if d == "A" || d == "B" || d == "F" {
+						provider = d
 						break
 					}
+					if d == "P" {
+						plainOnly = true
+					}
 				}
+				if provider == "" && plainOnly {
+					// only the plain directory is on the path: Python 3.3+ would make a namespace
+					// package of it, gpython reports ImportError; not judged
+					return
+				}
+				switch provider {
+				case "":
+					exp = append(exp, fmt.Sprintf("('ImportError',%d)", i))
+					continue
+				case "F":
+					exp = append(exp, "'body-F'", fmt.Sprintf("('ValueError',%d)", i))
+					continue // the half-initialised module is discarded
+				}
+				loaded = provider
+				exp = append(exp, "'body-"+provider+"'")
 			}
-			if loaded == "" {
-				exp = append(exp, fmt.Sprintf("('ImportError',%d)", i))
-			} else {
-				exp = append(exp, fmt.Sprintf("('ok',%d,'%s')", i, loaded))
+			exp = append(exp, fmt.Sprintf("('ok',%d,'%s')", i, loaded))
+		case "import2":
+			fmt.Fprintf(&b, "try:\n    import c19late2\n    c19late2.count = c19late2.count + 1\n    vh.log(('ok2', %d, c19late2.count))\nexcept ImportError:\n    vh.log(('ImportError2', %d))\n", i, i)
+			if !loaded2 {
+				onPath := false
+				for _, d := range path {
+					if d == "A" {
+						onPath = true
+					}
+				}
+				if !onPath {
+					exp = append(exp, fmt.Sprintf("('ImportError2',%d)", i))
+					continue
+				}
+				loaded2 = true
+				exp = append(exp, "'body-2'")
 			}
+			count2++
+			exp = append(exp, fmt.Sprintf("('ok2',%d,%d)", i, count2))
 		case "appendA":
 			fmt.Fprintf(&b, "sys.path.append(%q)\n", dirs["A"])
 			path = append(path, "A")
-		case "insertB":
-			fmt.Fprintf(&b, "sys.path[0:0] = [%q]\n", dirs["B"])
-			path = append([]string{"B"}, path...)
+		case "insertB", "insertF", "insertP":
+			d := o[len(o)-1:]
+			fmt.Fprintf(&b, "sys.path[0:0] = [%q]\n", dirs[d])
+			path = append([]string{d}, path...)
 		case "pop":
 			b.WriteString("del sys.path[-1:]\n")
 			if len(path) > 0 {
@@ -109,7 +160,7 @@ func c19LateOne(rc *core.RunCtx, dirs map[string]string, seq []string) {
 			nt = "latepath:" + fields["history"]
 		}
 		rc.Eval("latepath", nt)
-		if rc.WantSample() && rc.Index()%97 == 0 {
+		if rc.WantSample() && rc.Index()%397 == 0 {
 			rc.Sample(map[string]interface{}{"program": src, "expected_log": exp})
 		}
 		if got != strings.Join(exp, ";") {
